@@ -222,10 +222,14 @@ class Factory(object):
         solver.LOGICS = logics
         setattr(solver, "UNSAT_CORE_SUPPORT", unsat_core_support)
         self._all_solvers[name] = solver
-        # Extend preference list accordingly
-        self.preferences['Solver'].append(name)
+        # Extend preference list accordingly. The lists are replaced,
+        # not extended in place: they can be the lists of
+        # DEFAULT_PREFERENCES, that every other Environment starts with
+        self.preferences['Solver'] = \
+            list(self.preferences['Solver']) + [name]
         if unsat_core_support:
-            self.preferences['Solver supporting Unsat Cores'].append(name)
+            self.preferences['Solver supporting Unsat Cores'] = \
+                list(self.preferences['Solver supporting Unsat Cores']) + [name]
 
     def is_generic_solver(self, name):
         return name in self._generic_solvers
